@@ -333,14 +333,14 @@ def verify_numbers(ses, rep, fs):
                 return None
             for ev in [t for t in o.trace if t[0] == "str-index"]:
                 _, k, s, pc0 = ev
-                r, m = ses.obligation(f"verify-number/{fs}/{syn}/path{pi}/slice-from-{k}-in-bounds", lang + rel + pc0, z3.Length(s) < k, "`[2..]` never slices past the end", 30)
+                r, m = ses.obligation(f"verify-number/{fs}/{syn}/path{pi}/slice-from-{k}-in-bounds", lang + rel + pc0, z3.Length(s) < k, "`[2..]` never slices past the end", 240)
                 if r == "sat" and witness(m) is not None:
                     flagged.append((f"verify-number/{fs}/{syn}/slice", f"`[{k}..]` out of bounds for number {witness(m)}", "verify-number",
                                     {"syntax": syn, "literal": witness(m)}))
             if o.kind != "panic":
                 continue
             oid = f"verify-number/{fs}/{syn}/path{pi}/no-panic"
-            r, m = ses.check(lang + rel + list(o.pc), 60)
+            r, m = ses.check(lang + rel + list(o.pc), 240)
             if r == "unsat":
                 rep.add(oid, "unsat", f"no {syn} number token reaches `{str(o.value)[:50]}`")
             elif r == "unknown":
